@@ -377,14 +377,49 @@ def large_task(task):
     return acc
 
 
+KIND_SCRIPTS = [['all'], [1, 'all'], [1012, 1012, 'all'], [1013, 1, 2024, 'all'], [5000], [4] * 30 + ['all'], [2028, 'all']]
+
+
+def kind_task(task):
+    """small files (1..5 blocks) read through the unblocker from EVERY kind of file object with a few read scripts"""
+    from cardutil.mciipm import Unblock1014
+    from vf import fileobjs
+    acc = core.Acc()
+    for nb in task['blocks']:
+        pay = blk_ref.position_code(1012 * nb, _SEED)
+        blocked = blk_ref.block(pay)
+        for kind in fileobjs.ALL_READ_KINDS:
+            for si, script in enumerate(KIND_SCRIPTS):
+                case = {'kindcase': True, 'blocks': nb, 'kind': kind, 'script': si, 'seed': _SEED}
+                acc.case(('kind', nb, kind, si), nontrivial=True, outcome='file_object_kinds')
+                fo, done = fileobjs.reader(kind, blocked)
+                try:
+                    u = Unblock1014(fo)
+                    pos = 0
+                    for n in script:
+                        out = u.read() if n == 'all' else u.read(n)
+                        acc.transitions += 1
+                        exp = pay[pos:] if n == 'all' else pay[pos:pos + n]
+                        if bytes(out) != exp:
+                            acc.viol('c05.kinds.read', case, 'read(%s) at %d returned %d bytes' % (n, pos, len(out)),
+                                     'the next %d payload bytes' % len(exp), 'file object kind: ' + kind)
+                            break
+                        pos += len(exp)
+                except Exception as ex:
+                    acc.viol('c05.kinds.exception', case, repr(ex), 'payload slices', 'file object kind: ' + kind)
+                finally:
+                    done()
+    return acc
+
+
 def large_tasks(tier):
     sizes = [1034, 1035, 1036, 2071] if tier == 'quick' else [1034, 1035, 1036, 2069, 2070, 2071, 3106, 4200]
     ts = []
     for nb in sizes:
         for i, script in enumerate(LARGE_SCRIPTS):
-            kinds = ['bytesio', 'file', 'pipe', 'minimal']
+            kinds = ['bytesio', 'file', 'pipe', 'minimal', 'smallbuf', 'zip', 'mmap']
             if tier == 'quick':
-                kinds = [kinds[(i + nb) % 4]] if script not in ('all', 4096) else kinds
+                kinds = [kinds[(i + nb) % 7]] if script not in ('all', 4096) else kinds[:4]
             if script == 'oneshot':
                 kinds = ['bytesio', 'file']       # block_1014 rewinds both of its file objects: seekable ones only
             for kind in kinds:
@@ -422,6 +457,8 @@ def run(tier, seed):
         acc.merge(a)
     lts = large_tasks(tier) if core.AXIS == '' else large_tasks('quick')[::5]
     for a in core.pmap(large_task, lts):
+        acc.merge(a)
+    for a in core.pmap(kind_task, [{'blocks': [nb]} for nb in range(1, 6)]):
         acc.merge(a)
     caps = [acc.counters['bfs_cap_hit']] if 'bfs_cap_hit' in acc.counters else []
     if acc.counters.get('abstraction_mismatches'):
@@ -469,6 +506,8 @@ def replay_case(case):
         return a
     if case.get('large'):
         return large_task(case)
+    if case.get('kindcase'):
+        return kind_task({'blocks': [case['blocks']]})
     if 'records' in case:
         return record_task({'lists': [case['records']]})
     if 'pair' in case:
